@@ -111,6 +111,33 @@ def valStream (cfg : Cfg M K R) (eqv : Eqv M) (o : SubOpts K) (s : VState M) (op
   (valSeed cfg s o).1 ++ forwardAll cfg eqv o (valSeed cfg s o).2 (vBusEvents cfg s ops)
 
 
+/-! ## PullID
+
+`Collection.PullID(id)` runs a `Pull` with the same options and forwards, as `ValueChange`s, the
+changes of the one (intercepted) id: other ids are skipped, a REMOVE of the id ends the stream (the
+channel is closed, nothing more is forwarded), so does a change without a new value.  The single seed
+value of the item is flagged seed AND last-seed (fix 9e0ecc3: it used to copy the collection seed's
+last-seed flag, which is only set on the item with the greatest id). -/
+
+def toDeliv (e : CEvent M) (v : M) : VDeliv M :=
+  { value := v, time := e.time, seed := e.seed, lastSeed := e.seed }
+
+/-- the forwarding loop of `PullID` over what its `Pull` delivers: (forwarded, ended) -/
+def pullIDLoop (id : String) : List (CEvent M) → List (VDeliv M) × Bool
+  | [] => ([], false)
+  | e :: es =>
+    if e.id ≠ id then pullIDLoop id es
+    else if e.kind = .remove then ([], true)
+    else match e.new with
+      | none => ([], true)
+      | some v => ((toDeliv e v) :: (pullIDLoop id es).1, (pullIDLoop id es).2)
+
+/-- what a `PullID` subscriber that subscribes in state `s` receives while `ops` run, and whether its
+stream has ended -/
+def pullIDStream (cfg : Cfg M K R) (eqv : Eqv M) (o : SubOpts K) (s : CState M R) (id : String)
+    (ops : List (COp M K)) : List (VDeliv M) × Bool :=
+  pullIDLoop (icptId cfg id) (collStream cfg eqv o s ops)
+
 /-! ## A subscriber that opens while a write is in flight
 
 `Collection.onUpdate` / `Value.onUpdate` take the snapshot for the seed and register on the bus while
